@@ -1575,7 +1575,12 @@ class Compiler:
                         self._emit(OpCode.LOAD_CONST, idx)
                     self._emit(OpCode.DELETE_PROP)
                 else:
-                    self._emit(OpCode.LOAD_TRUE)  # delete on non-property returns true
+                    # delete on non-property returns true; the operand is still
+                    # evaluated (delete f() calls f)
+                    if not isinstance(node.argument, Identifier):
+                        self._compile_expression(node.argument)
+                        self._emit(OpCode.POP)
+                    self._emit(OpCode.LOAD_TRUE)
             elif node.operator == "void":
                 # void evaluates argument for side effects, returns undefined
                 self._compile_expression(node.argument)
